@@ -193,6 +193,9 @@ func runOnce(t *testing.T, job *Job, run uint64, rf *ReplayFile) (res RunResult,
 			mask := c.CfgPick("mask", []string{"sync", "all", "pkg:pokertable", "pkg:syncsaga,open_game_manager", "pkg:seat_manager", "pkg:pokertable,actor"}, mw...)
 			sch = simrt.New(strategy, st.Get("sched"), st.Get("maporder"))
 			sch.MapMode = c.CfgInt("mapmode", 0, 2)
+			// how a released mutex is passed on: to its waiters in arrival order (sync.Mutex in starvation
+			// mode, the rule behind holders that sleep) or to whoever runs first (normal mode)
+			sch.LockHandoff = c.CfgBool("lock_handoff", 1, 2)
 			sch.Mask = BuildMask(mask)
 			sch.Sites = siteTable
 			c.Sch = sch
